@@ -40,11 +40,12 @@ def S(names, stages=(0,), reps=("none", "n2"), aggs=(True, False), spell=("rel",
 
 SLICES = {
     "quick": {
-        "suffix": S(["a", "ba", "ab"], graph=2),
-        "digit": S(["a", "a0", "a1"], graph=2),
-        "misc": S(["x.y", "a-b", "c"], spell=("rel",), graph=3),
-        "stages": S(["a", "c"], stages=(0, 1), graph=4),
-        "shape": S(["p", "q", "r"], reps=("none", "n1", "n2", "n3"), spell=("rel",), orders=("fwd", "rev"), fixed=True),
+        "suffix": S(["a", "ba", "ab"], graph=4),
+        "digit": S(["a", "a0", "a1"], graph=4),
+        "misc": S(["x.y", "a-b", "c"], spell=("rel",), graph=4),
+        "stages": S(["a", "c"], stages=(0, 1), graph=8),
+        "shape": S(["p", "q", "r"], reps=("none", "n1", "n2", "n3"), spell=("rel",), orders=("fwd", "rev"), fixed=True, graph=2),
+        "many": S(["p", "q"], reps=("none", "n11"), comps=2, fixed=True),
         "vars": S(["p", "q"], stages=(0, 1), reps=ALL_REPS, spell=("abs",), comps=2, fixed=True),
         "refs": S(["p", "q"], paths=("", "out.txt", "d/f.x"), methods=("ref", "copy", "output"),
                   styles=("same", "flip", "tail", "tail2"), comps=2, refs=1, fixed=True),
@@ -63,6 +64,7 @@ SLICES = {
         "vars2": S(["p", "q"], stages=(0, 1), reps=ALL_REPS, spell=("abs",), comps=2, fixed=True),
         "refs": S(["p", "q"], paths=("", "out.txt", "d/f.x"), methods=("ref", "copy", "output", "link", "copyout", "extract"),
                   styles=("same", "flip", "tail", "tail2"), comps=2, refs=1, fixed=True),
+        "many": S(["p", "q", "r"], reps=("none", "n11"), comps=3, spell=("rel",), fixed=True, graph=4),
         "refs3": S(["a", "ba", "c"], paths=("", "out.txt"), styles=("same", "tail"), spell=("rel", "abs"), aggs=(True, False),
                    graph=8),
     },
